@@ -24,7 +24,7 @@ structure KeepL (s s' : Sys) (b : Bytes) : Prop where
     sub-block is missing): inside the sub-block it just becomes pending; at the end of the sub-block
     the server acknowledges what it has (on reception or on its time-out) and the client pushes the
     retransmission of everything pending -/
-theorem send_noacc_nonlast (E : Env) (hE : ∀ k, 1 ≤ E.blkOf k ∧ E.blkOf k ≤ 127) (payload : Bytes) (s : Sys)
+theorem send_noacc_nonlast (E : Env) (hE : Plain E) (payload : Bytes) (s : Sys)
     (b : Bytes) (r : Bool) (t : List Item) (h : Inv payload s (.write b r :: t)) (hb : b.length = 7)
     (ht : itemsData t ≠ []) (hna : E.lost s.nreq = true ∨ s.srv.sseq < s.cl.seqno) :
     if s.cl.seqno + 1 < s.cl.blksize then
@@ -38,7 +38,7 @@ theorem send_noacc_nonlast (E : Env) (hE : ∀ k, 1 ≤ E.blkOf k ∧ E.blkOf k 
   have hq1 : 1 ≤ s.cl.seqno + 1 := by omega
   have hq2 : s.cl.seqno + 1 ≤ 127 := by have := h.seqLt; have := h.blkLe; omega
   have hrecv := recv_seg E.blkOf s.srv (s.cl.seqno + 1) false b hq1 hq2 (by omega) h.phase
-  have hnb := hE s.srv.k
+  have hnb := hE.blk s.srv.k
   have hQ := h.queue
   have hD := h.notDone
   have hP := h.phase
@@ -59,7 +59,7 @@ theorem send_noacc_nonlast (E : Env) (hE : ∀ k, 1 ≤ E.blkOf k ∧ E.blkOf k 
       exact ⟨_, rfl, inv_advance h hb ht false (by simp) (by omega) (by simp [hP]) (by simp [hD]) rfl rfl rfl rfl
         (by simp) (by simp) (by simp [hb]) rfl rfl (by simp [hQ]), ⟨rfl, rfl, rfl, rfl, rfl⟩, rfl, rfl, rfl, rfl, rfl⟩
     · have hl' : E.lost s.nreq = false := by simpa using hl
-      rw [sendReq_deliv E s _ hl']
+      rw [sendReq_deliv E s _ hl' hE.dist]
       rw [if_neg (hs' hl'), if_neg (by simp; omega)] at hrecv
       rw [hrecv]
       simp only [afterSend, Bool.false_eq_true, if_false, Bool.or_false, hQ, List.nil_append]
@@ -72,12 +72,12 @@ theorem send_noacc_nonlast (E : Env) (hE : ∀ k, 1 ≤ E.blkOf k ∧ E.blkOf k 
     by_cases hl : E.lost s.nreq = true
     · rw [sendReq_lost E s _ hl]
       simp only [afterSend, Bool.false_eq_true, if_false, Bool.or_false]
-      rw [if_pos (by omega), blockAck_timeout _ _ (by simp [hQ]) (by simp [hP]), ackResponse_ack]
+      rw [if_pos (by omega), blockAck_timeout _ _ (by simp [hQ]) (by simp [hP]) (hE.tmo' hl), ackResponse_ack]
       simp only [ne_eq, hne, not_false_eq_true, if_true]
       exact ⟨_, rfl, inv_retx h hb ht (E.blkOf s.srv.k) hnb (by simp [hP]) (by simp [hD]) rfl rfl rfl rfl rfl rfl
         (by simp [hb]) rfl rfl rfl, ⟨rfl, rfl, rfl, rfl, rfl⟩, rfl, rfl, rfl, rfl⟩
     · have hl' : E.lost s.nreq = false := by simpa using hl
-      rw [sendReq_deliv E s _ hl']
+      rw [sendReq_deliv E s _ hl' hE.dist]
       rw [if_neg (hs' hl'), if_pos (Or.inr (by omega)), ack_eq] at hrecv
       rw [hrecv]
       simp only [afterSend, Bool.false_eq_true, if_false, Bool.or_false, hQ, List.nil_append]
@@ -154,7 +154,7 @@ theorem fresh_length (F : List Bytes) : (fresh F).length = F.length := by simp [
 
 theorem fresh_cons (c : Bytes) (F : List Bytes) : fresh (c :: F) = Item.write c false :: fresh F := rfl
 
-theorem run_nl (E : Env) (hE : ∀ k, 1 ≤ E.blkOf k ∧ E.blkOf k ≤ 127) (payload : Bytes) :
+theorem run_nl (E : Env) (hE : Plain E) (payload : Bytes) :
     ∀ (fuel : Nat) (s : Sys) (retx : Bool) (R F : List Bytes), NL E payload s retx R F →
     (todoOf retx R F).length + (if s.srv.sseq < s.cl.seqno then 130 else 0) + 1 ≤ fuel →
     ∃ s', run E fuel s (todoOf retx R F) = (s', .ok) ∧ Good E payload s s' := by
@@ -354,7 +354,7 @@ theorem notFinal_len (blkOf : Nat → Nat) (hb : ∀ k, 1 ≤ blkOf k) :
 
 /-- client and server in step, nothing lost so far, exactly one loss ahead, not in the final
     sub-block: the write phase completes -/
-theorem run_pre (E : Env) (hE : ∀ k, 1 ≤ E.blkOf k ∧ E.blkOf k ≤ 127) (payload : Bytes) :
+theorem run_pre (E : Env) (hE : Plain E) (payload : Bytes) :
     ∀ (d : Nat) (s : Sys) (F : List Bytes) (fuel : Nat), Inv payload s (fresh F) → s.srv.sseq = s.cl.seqno →
     s.cl.retransmitting = false → (s.cl.crcSupported = true → s.cl.crc = crcHqx s.srv.buf 0) →
     (∀ n, s.nreq ≤ n → E.lost n = decide (n = s.nreq + d)) →
@@ -421,7 +421,7 @@ theorem run_pre (E : Env) (hE : ∀ k, 1 ≤ E.blkOf k ∧ E.blkOf k ≤ 127) (p
     obtain ⟨f, rfl⟩ : ∃ f, fuel = f + 1 := ⟨fuel - 1, by omega⟩
     have hl : E.lost s.nreq = false := by rw [hlost _ (Nat.le_refl _)]; simp
     have hslt := hinv.seqLt
-    have hlen := notFinal_len E.blkOf (fun k => (hE k).1) _ _ _ _ (by omega) hnf
+    have hlen := notFinal_len E.blkOf (fun k => (hE.blk k).1) _ _ _ _ (by omega) hnf
     cases F with
     | nil => exact absurd rfl hinv.nonempty
     | cons c F' =>
